@@ -22,6 +22,17 @@ def run(ctx):
         return cases
 
     cases = harness(n, ctx.seed, "h")
+
+    # sessions are created from the CURRENT peer configuration: SetConfig sequences changing one peer field at a time
+    def sessparams(nsp, seed, tag):
+        recs, hok, log = ctx.go_harness("speaker", ["zz_verif_bgp_test.go"], "TestVerifBgpSessParams$", n=nsp, seed=seed, tag=tag)
+        _, stats = ctx.handle_records(recs)
+        for k, v in stats.items():
+            state["stats"][k] = state["stats"].get(k, 0) + v
+        if not hok and not any("does not build" in c for c in ctx.corr_broken):
+            ctx.corr_broken.append("harness TestVerifBgpSessParams failed: " + log[-1500:])
+
+    sessparams(6 if ctx.tier == "quick" else 100, ctx.seed, "sp")
     mism = []
     if cases and ok:
         mism = ctx.coq_cases("Run_BgpAds", "bcase", [c["coq"] for c in cases], shard=8 if ctx.tier == "quick" else 100)
@@ -33,7 +44,8 @@ def run(ctx):
     if cases:
         for k in ("op_set", "op_del_announced", "op_cfg", "op_node", "oracle_nonempty_route_sets", "services_with_peers",
                   "sessions_closed_by_node", "sessions_closed_by_cfg", "final_prefix_shared_by_services", "unchanged_peer_kept_checks",
-                  "whole_cfg", "whole_set", "whole_del", "whole_dual_stack_across_pools", "whole_expected_routes"):
+                  "whole_cfg", "whole_set", "whole_del", "whole_dual_stack_across_pools", "whole_expected_routes",
+                  "sessparams_checks", "sessparams_field:PasswordRef.Name", "sessparams_field:PasswordRef.Namespace", "sessparams_field:NodeSelectors"):
             if st.get(k, 0) == 0:
                 raise vlib.Broken("generator degenerate: counter %r is zero: %r" % (k, st))
 
